@@ -30,6 +30,21 @@ def gen_case(rng):
     return dict(cols=cols, cons=cons_, eps=eps, strict=strict, report=rng.choice(['all', 'fields']))
 
 
+BIG = [2 ** 53 + 1, 2 ** 53 + 3, 2 ** 53 + 5, 2 ** 62 + 1, 2 ** 63 - 4, -(2 ** 53) - 3, -(2 ** 62) - 1, -(2 ** 53) - 1]
+
+
+def gen_bigint_case(rng):
+    """min/max bounds equal to data extremes that a double cannot represent: the documented meaning compares exactly"""
+    vals = rng.sample(BIG, rng.choice([1, 2, 3]))
+    cells = [rng.choice(vals) for _ in range(rng.choice([1, 2, 4]))]
+    col = C.normalise_column({'type': 'int', 'cells': cells, 'variant': 'int64'})
+    cs = {}
+    for kind in rng.sample(['min', 'max'], rng.choice([1, 2])):
+        b = min(cells) if kind == 'min' else max(cells)
+        cs[kind] = {'value': b + rng.choice([0, 0, 0, 1, -1]), 'precision': rng.choice([None, 'fuzzy', 'closed', 'open'])}
+    return dict(cols={'big': col}, cons={'big': cs}, eps=rng.choice([0, None, 0.01]), strict=rng.random() < 0.5, report='all')
+
+
 def run_impl(case):
     from tdda.constraints import verify_df
     df = C.frame_of(case['cols'])
@@ -203,7 +218,8 @@ def null_constraint_independence(ctx, rng, case):
 def run(ctx):
     rng = ctx.rng
     n = 1200 if ctx.quick else 40000
-    cases = [gen_case(rng) for _ in range(n)]
+    cases = [gen_case(rng) for _ in range(n)] + [gen_bigint_case(rng) for _ in range(n // 20)]
+    n = len(cases)
     payloads = [model_payload(c) for c in cases]
     mouts = ctx.model.call_many(9, payloads) if ctx.model_ok else [None] * n
     for i, (case, mo) in enumerate(zip(cases, mouts)):
